@@ -190,9 +190,10 @@ func (h *HookSource) SubscriptionOnStart(hc resolve.StartupHookContext, input []
 	case HookEmit:
 		e := r.newEvent(sub.Key, nil, sub.Idx%4, sub)
 		e.ViaHook = true
-		e.Call = r.Clock.Tick()
+		atomic.StoreInt64(&e.Call, r.Clock.Tick())
 		hc.Updater([]byte(e.Payload))
-		e.Ret = r.Clock.Tick()
+		// (a start-up hook may still be running when the history is read for its signature)
+		atomic.StoreInt64(&e.Ret, r.Clock.Tick())
 	}
 	call.Ret = r.Clock.Tick()
 	return nil
